@@ -14,31 +14,12 @@
 (* (one state per configuration), invariants check that every generated    *)
 (* reference is itself a Markov generator.                                 *)
 (***************************************************************************)
-EXTENDS TTBase, Json
+EXTENDS SlimBase, Json
 
 CONSTANTS MaxD, Sizes, NSingle, NTwo, Seeds, ExhaustiveD2, NShards, Shard, UlamGrids, UlamN
 
 VARIABLES cfg, out
 vars == <<cfg, out>>
-
-Ind(b) == IF b THEN 1 ELSE 0
-
-SingleTerm(i, r, Y, X) ==
-    IF X[i] = r[1] THEN r[3] * (Ind(Y = [X EXCEPT ![i] = r[2]]) - Ind(Y = X)) ELSE 0
-TwoTerm(i, j, r, Y, X) ==
-    IF X[i] = r[1] /\ X[j] = r[3] THEN r[5] * (Ind(Y = [X EXCEPT ![i] = r[2], ![j] = r[4]]) - Ind(Y = X)) ELSE 0
-
-\* ss: state-space vector; scr[i]: sequence of single-cell reactions of cell i;
-\* tcr[b]: sequence of two-cell reactions of bond b (b = d: the closing bond d -> 1, present iff cyclic)
-GenEntry(ss, scr, tcr, Y, X) ==
-    LET d == Len(ss)
-    IN  ISumTo([i \in 1..d |-> ISumTo([k \in 1..Len(scr[i]) |-> SingleTerm(i, scr[i][k], Y, X)], Len(scr[i]))], d)
-      + ISumTo([b \in 1..Len(tcr) |->
-            LET i == b
-                j == IF b = d THEN 1 ELSE b + 1
-            IN  ISumTo([k \in 1..Len(tcr[b]) |-> TwoTerm(i, j, tcr[b][k], Y, X)], Len(tcr[b]))], Len(tcr))
-
-Generator(ss, scr, tcr) == Mk(ss, ss, LAMBDA Y, X : CI(GenEntry(ss, scr, tcr, Y, X)))
 
 \* ---- deterministic reaction lists from a seed (all states inside the state space, rates 1..3)
 H(a, b, c, e) == (a * 37 + b * 11 + c * 101 + e * 7 + a * b * 3 + c * e * 5 + 13) % 97
